@@ -17,7 +17,7 @@ ASSUMPTIONS = [
     "placing a new order inside an already COMPLETE trade is outside the property (a completed trade is final); such trades are skipped",
     "trades flagged pending_orders are outside, as the property says",
 ]
-WEIGHTS = [("hostile", 4), ("fastlat", 3), ("plain", 2), ("multi", 1), ("event", 1)]
+WEIGHTS = [("hostile", 4), ("fastlat", 3), ("plain", 2), ("multi", 1), ("event", 1), ("recorded", 1)]
 
 
 def plan(tier, seed):
